@@ -1,1 +1,636 @@
-/-! # C19 — property theorems (not built yet) -/
+import RsMatterVerif.Lemmas.Cert
+/-!
+# C19 — a certificate chain is accepted exactly when it is valid under the Matter rules
+-/
+namespace C19
+open Cert
+
+theorem validateCase_none_iff (t : Time) (fabric : FabricView) (noc : Cert) :
+    validateCase t fabric noc none = .ok () ↔ CaseValid t fabric noc none := by
+  unfold validateCase CaseValid ChainValid pathOf
+  cases hn : nodeIdOf noc.subject with
+  | none => simp
+  | some n =>
+    cases hf : fabricIdOf noc.subject with
+    | none => simp
+    | some fid =>
+      by_cases hfe : fabric.fabricId = fid
+      · simp only [hfe, ne_eq, not_true_eq_false, ↓reduceIte, Option.isNone_some, Bool.false_eq_true]
+        rw [step_ok]
+        simp only [finalise_ok_iff]
+        simp [List.zipIdx, PositionOk, not_authority_of_node hn]
+        grind
+      · simp [hfe]; intros; omega
+
+theorem validateCase_some_iff (t : Time) (fabric : FabricView) (noc ic : Cert) :
+    validateCase t fabric noc (some ic) = .ok () ↔ CaseValid t fabric noc (some ic) := by
+  unfold validateCase CaseValid ChainValid pathOf
+  cases hn : nodeIdOf noc.subject with
+  | none => simp
+  | some n =>
+    cases hf : fabricIdOf noc.subject with
+    | none => simp
+    | some fid =>
+      by_cases hfe : fabric.fabricId = fid
+      · cases hif : icacOtherFabric ic fid with
+        | true =>
+          have : ¬ ∀ f ∈ fabricIdOf ic.subject, f = fid := by
+            rw [← icacOtherFabric_false_iff, hif]; simp
+          simp [hfe, hif]
+          intros; simpa using this
+        | false =>
+          have h3 : ∀ f, fabricIdOf ic.subject = some f → f = fid := by
+            simpa using (icacOtherFabric_false_iff ic fid).1 hif
+          simp only [hfe, hif, ne_eq, not_true_eq_false, ↓reduceIte, Option.isNone_some, Bool.false_eq_true]
+          rw [step_ok, step_ok]
+          simp only [finalise_ok_iff]
+          simp [List.zipIdx, PositionOk, not_authority_of_node hn]
+          grind
+      · simp [hfe]; intros; omega
+
+/-- **CASE, both shapes**: `CaseP::validate_certs` accepts exactly the chains that are valid for
+the addressed fabric. -/
+theorem validateCase_iff (t : Time) (fabric : FabricView) (noc : Cert) (icac : Option Cert) :
+    validateCase t fabric noc icac = .ok () ↔ CaseValid t fabric noc icac := by
+  cases icac with
+  | none => exact validateCase_none_iff t fabric noc
+  | some ic => exact validateCase_some_iff t fabric noc ic
+
+/-- **verify_iff_valid (CASE)**: the peer's chain is admitted (and a node id extracted for the
+session) if and only if it is valid under the Matter rules for the addressed fabric. -/
+theorem verify_iff_valid (t : Time) (fabric : FabricView) (noc : Cert) (icac : Option Cert) :
+    (∃ n, caseAccept t fabric noc icac = .ok n) ↔ CaseValid t fabric noc icac := by
+  unfold caseAccept
+  cases hv : validateCase t fabric noc icac with
+  | error e =>
+    have : ¬ CaseValid t fabric noc icac := by rw [← validateCase_iff, hv]; simp
+    simp [this]
+  | ok u =>
+    have hc : CaseValid t fabric noc icac := (validateCase_iff t fabric noc icac).1 hv
+    have hn := hc.1.2.2.2.2.2
+    cases h : nodeIdOf noc.subject with
+    | none => simp [h] at hn
+    | some n => simp [hc]
+
+/-- the session is bound to the node id the certificate carries -/
+theorem caseAccept_node (t : Time) (fabric : FabricView) (noc : Cert) (icac : Option Cert) (n : Nat)
+    (h : caseAccept t fabric noc icac = .ok n) : nodeIdOf noc.subject = some n := by
+  unfold caseAccept at h
+  cases hv : validateCase t fabric noc icac with
+  | error e => simp [hv] at h
+  | ok u =>
+    cases hn : nodeIdOf noc.subject with
+    | none => simp [hv, hn] at h
+    | some m => simp [hv, hn] at h; rw [h]
+
+/-! ## Installing credentials -/
+
+theorem validateInstall_iff (t : Time) (noc : Cert) (icac : Option Cert) (root : Cert) :
+    validateInstall t noc icac root = .ok () ↔
+      ChainValid t root noc icac ∧ ∀ ic ∈ icac, ic.akid ≠ ic.skid := by
+  unfold validateInstall ChainValid pathOf
+  cases hn : nodeIdOf noc.subject with
+  | none => simp
+  | some n =>
+    cases icac with
+    | none =>
+      simp only [Option.isNone_some, Bool.false_eq_true, ↓reduceIte]
+      rw [step_ok]
+      simp only [finalise_ok_iff]
+      simp [List.zipIdx, PositionOk, not_authority_of_node hn]
+      grind
+    | some ic =>
+      simp only [Option.isNone_some, Bool.false_eq_true, ↓reduceIte, isSelfSigned, isAuthority]
+      cases hs : ic.skid with
+      | none => simp [Issues, hs]
+      | some k =>
+        by_cases hak : ic.akid = some k
+        · simp [hak]; intros; rw [hs]
+        · have hb : (ic.akid == some k) = false := by simpa using hak
+          simp only [hb]
+          rw [step_ok, step_ok]
+          simp only [finalise_ok_iff]
+          simp [List.zipIdx, PositionOk, not_authority_of_node hn]
+          grind
+
+theorem any_conflict_false_iff (fabrics : List FabricEntry) (fid key : Nat) :
+    fabrics.any (fun f => fid == f.fabricId && key == f.rootPubKey) = false ↔
+      ∀ f ∈ fabrics, ¬ (f.fabricId = fid ∧ f.rootPubKey = key) := by
+  simp only [List.any_eq_false, Bool.and_eq_true, beq_iff_eq, not_and]
+  constructor
+  · intro h f hf h1 h2; exact h f hf h1.symm h2.symm
+  · intro h f hf h1 h2; exact h f hf h1.symm h2.symm
+
+/-- **verify_iff_valid (installing)**: `AddNOC` installs the credentials if and only if the chain
+is valid under the staged root, the leaf carries the key generated for this request, and the
+fabric does not exist already. -/
+theorem install_iff_valid (t : Time) (root : Cert) (csrKey : KeyId) (fabrics : List FabricEntry)
+    (noc : Cert) (icac : Option Cert) :
+    (∃ r, addNoc t root csrKey fabrics noc icac = .ok r) ↔
+      InstallValid t root csrKey fabrics noc icac := by
+  unfold addNoc InstallValid
+  cases hv : validateInstall t noc icac root with
+  | error e =>
+    have : ¬ (ChainValid t root noc icac ∧ ∀ ic ∈ icac, ic.akid ≠ ic.skid) := by
+      rw [← validateInstall_iff, hv]; simp
+    simp only [reduceCtorEq, exists_false, false_iff]
+    intro h; exact this ⟨h.1, h.2.1⟩
+  | ok u =>
+    have hc := (validateInstall_iff t noc icac root).1 hv
+    have hn := hc.1.2.2.2.2.2
+    by_cases hk : csrKey = noc.pubKey
+    · cases hf : fabricIdOf noc.subject with
+      | none => simp [hk]
+      | some fid =>
+        cases ha : fabrics.any (fun f => fid == f.fabricId && root.pubKey == f.rootPubKey) with
+        | true =>
+          have : ¬ ∀ f ∈ fabrics, ¬ (f.fabricId = fid ∧ f.rootPubKey = root.pubKey) := by
+            rw [← any_conflict_false_iff, ha]; simp
+          simp only [hk, ha, ne_eq, not_true_eq_false, ↓reduceIte, reduceCtorEq, exists_false, false_iff]
+          intro h
+          obtain ⟨_, _, _, fid', h1, h2⟩ := h
+          simp only [Option.some.injEq] at h1
+          subst h1
+          exact this h2
+        | false =>
+          have h2 := (any_conflict_false_iff fabrics fid root.pubKey).1 ha
+          cases h : nodeIdOf noc.subject with
+          | none => simp [h] at hn
+          | some n =>
+            simp only [hk, ha, ne_eq, not_true_eq_false, ↓reduceIte, Bool.false_eq_true, Except.ok.injEq, exists_eq', true_iff]
+            exact ⟨hc.1, hc.2, trivial, fid, rfl, h2⟩
+    · simp only [ne_eq, hk, not_false_eq_true, ↓reduceIte, reduceCtorEq, exists_false, false_iff]
+      intro h; exact hk h.2.2.1.symm
+
+/-- the new fabric takes the fabric id and node id of the installed certificate -/
+theorem addNoc_identity (t : Time) (root : Cert) (csrKey : KeyId) (fabrics : List FabricEntry)
+    (noc : Cert) (icac : Option Cert) (f n : Nat)
+    (h : addNoc t root csrKey fabrics noc icac = .ok (f, n)) :
+    fabricIdOf noc.subject = some f ∧ nodeIdOf noc.subject = some n := by
+  unfold addNoc at h
+  cases hv : validateInstall t noc icac root with
+  | error e => simp [hv] at h
+  | ok u =>
+    by_cases hk : csrKey = noc.pubKey
+    · cases hf : fabricIdOf noc.subject with
+      | none => simp [hv, hk, hf] at h
+      | some fid =>
+        by_cases ha : fabrics.any (fun f => fid == f.fabricId && root.pubKey == f.rootPubKey) = true
+        · simp [hv, hk, hf, ha] at h
+        · cases hm : nodeIdOf noc.subject with
+          | none => simp [hv, hk, hf, ha, hm] at h
+          | some m =>
+            simp [hv, hk, hf, ha, hm] at h
+            simp [h.1, h.2]
+    · simp [hv, hk] at h
+
+/-- `UpdateNOC`: accepted iff the chain is valid under the fabric's own root, carries the fresh
+key and the id of the fabric being updated. -/
+theorem update_iff_valid (t : Time) (fabric : FabricView) (csrKey : KeyId) (noc : Cert)
+    (icac : Option Cert) :
+    (∃ r, updateNoc t fabric csrKey noc icac = .ok r) ↔ UpdateValid t fabric csrKey noc icac := by
+  unfold updateNoc UpdateValid
+  cases hv : validateInstall t noc icac fabric.root with
+  | error e =>
+    have : ¬ (ChainValid t fabric.root noc icac ∧ ∀ ic ∈ icac, ic.akid ≠ ic.skid) := by
+      rw [← validateInstall_iff, hv]; simp
+    simp only [reduceCtorEq, exists_false, false_iff]
+    intro h; exact this ⟨h.1, h.2.1⟩
+  | ok u =>
+    have hc := (validateInstall_iff t noc icac fabric.root).1 hv
+    have hn := hc.1.2.2.2.2.2
+    by_cases hk : csrKey = noc.pubKey
+    · cases hf : fabricIdOf noc.subject with
+      | none => simp [hk]
+      | some fid =>
+        by_cases hfe : fid = fabric.fabricId
+        · cases h : nodeIdOf noc.subject with
+          | none => simp [h] at hn
+          | some n =>
+            simp [hk, hfe, hc.1]
+            exact fun ic hic => hc.2 ic (by simp [hic])
+        · simp [hk, hfe]
+    · simp only [ne_eq, hk, not_false_eq_true, ↓reduceIte, reduceCtorEq, exists_false, false_iff]
+      intro h; exact hk h.2.2.1.symm
+
+/-! ## Independence of the rules
+
+Each lemma: a chain with exactly that defect is rejected — stated without any assumption on the
+rest of the chain (so in particular for "valid chain + this one defect"), which is what makes
+the rule independent of the others.  Non-vacuity (`example`s at the end): every hypothesis is
+met by a one-field mutation of a concrete valid chain. -/
+
+/-- the CASE path does not admit the chain -/
+def Rejected (t : Time) (fabric : FabricView) (noc : Cert) (icac : Option Cert) : Prop :=
+  ∀ n, caseAccept t fabric noc icac ≠ .ok n
+
+theorem rejected_of_not_valid {t : Time} {fabric : FabricView} {noc : Cert} {icac : Option Cert}
+    (h : ¬ CaseValid t fabric noc icac) : Rejected t fabric noc icac :=
+  fun n hn => h ((verify_iff_valid t fabric noc icac).1 ⟨n, hn⟩)
+
+/-- the installing path does not accept the credentials -/
+def InstallRejected (t : Time) (root : Cert) (csrKey : KeyId) (fabrics : List FabricEntry)
+    (noc : Cert) (icac : Option Cert) : Prop :=
+  ∀ r, addNoc t root csrKey fabrics noc icac ≠ .ok r
+
+theorem install_rejected_of_not_valid {t : Time} {root : Cert} {k : KeyId} {fs : List FabricEntry}
+    {noc : Cert} {icac : Option Cert} (h : ¬ InstallValid t root k fs noc icac) :
+    InstallRejected t root k fs noc icac :=
+  fun r hr => h ((install_iff_valid t root k fs noc icac).1 ⟨r, hr⟩)
+
+/-- in a valid chain every certificate has an issuer on the path (the next one; the root itself) -/
+theorem valid_has_issuer {t : Time} {root noc : Cert} {icac : Option Cert}
+    (h : ChainValid t root noc icac) :
+    ∀ c ∈ pathOf noc icac root, ∃ i ∈ pathOf noc icac root, Issues i c := by
+  cases icac with
+  | none =>
+    simp [ChainValid, pathOf] at h ⊢
+    exact ⟨Or.inr h.1.1, Or.inr h.1.2⟩
+  | some ic =>
+    simp [ChainValid, pathOf] at h ⊢
+    exact ⟨Or.inr (Or.inl h.1.1), Or.inr (Or.inr h.1.2.1), Or.inr (Or.inr h.1.2.2)⟩
+
+/-- **flipped signature** (or any change of signed bytes): a chain containing a certificate
+whose signature verifies under no key is rejected, whatever else holds -/
+theorem flip_signature_rejects (t : Time) (fabric : FabricView) (noc : Cert) (icac : Option Cert)
+    (c : Cert) (hc : c ∈ pathOf noc icac fabric.root) (hs : c.sigBy = none) :
+    Rejected t fabric noc icac := by
+  apply rejected_of_not_valid
+  intro h
+  obtain ⟨i, _, hi⟩ := valid_has_issuer h.1 c hc
+  rw [hi.1] at hs; cases hs
+
+
+/-- the certificate that must have issued the leaf: the intermediate if present, else the root -/
+def leafIssuer (root : Cert) (icac : Option Cert) : Cert := icac.getD root
+
+theorem valid_leaf_issued {t : Time} {root noc : Cert} {icac : Option Cert}
+    (h : ChainValid t root noc icac) : Issues (leafIssuer root icac) noc := by
+  cases icac with
+  | none => simp [ChainValid, pathOf] at h; exact h.1.1
+  | some ic => simp [ChainValid, pathOf] at h; exact h.1.1
+
+/-- **issuer link (name)**: the leaf names an issuer other than the subject of the certificate
+above it -/
+theorem issuer_link (t : Time) (fabric : FabricView) (noc : Cert) (icac : Option Cert)
+    (hd : noc.issuer ≠ (leafIssuer fabric.root icac).subject) : Rejected t fabric noc icac := by
+  apply rejected_of_not_valid
+  intro h; exact hd (valid_leaf_issued h.1).2.1
+
+/-- **issuer link (key identifier)**: authority key id of the leaf differs from the subject key
+id of the certificate above it -/
+theorem issuer_link_keyid (t : Time) (fabric : FabricView) (noc : Cert) (icac : Option Cert)
+    (hd : noc.akid ≠ (leafIssuer fabric.root icac).skid) : Rejected t fabric noc icac := by
+  apply rejected_of_not_valid
+  intro h; exact hd (valid_leaf_issued h.1).2.2.2
+
+/-- **issuer link, any position**: some certificate of the path is issued by no certificate of
+the path -/
+theorem issuer_link_any (t : Time) (fabric : FabricView) (noc : Cert) (icac : Option Cert)
+    (c : Cert) (hc : c ∈ pathOf noc icac fabric.root)
+    (hd : ∀ i ∈ pathOf noc icac fabric.root, c.issuer ≠ i.subject ∨ c.akid ≠ i.skid) :
+    Rejected t fabric noc icac := by
+  apply rejected_of_not_valid
+  intro h
+  obtain ⟨i, hi, his⟩ := valid_has_issuer h.1 c hc
+  rcases hd i hi with h1 | h1
+  · exact h1 his.2.1
+  · exact h1 his.2.2.2
+
+/-- **validity window**: some certificate of the path does not cover the node's time -/
+theorem validity (t : Time) (fabric : FabricView) (noc : Cert) (icac : Option Cert)
+    (c : Cert) (hc : c ∈ pathOf noc icac fabric.root) (hd : ¬ Covers t c) :
+    Rejected t fabric noc icac := by
+  apply rejected_of_not_valid
+  intro h; exact hd (h.1.2.1 c hc)
+
+/-- expired: not-after lies before the node's time (reliable or last-known-good) -/
+theorem validity_expired (t : Time) (fabric : FabricView) (noc : Cert) (icac : Option Cert)
+    (c : Cert) (hc : c ∈ pathOf noc icac fabric.root) (h0 : c.notAfter ≠ 0)
+    (hd : c.notAfter < t.anySecs) : Rejected t fabric noc icac := by
+  apply validity t fabric noc icac c hc
+  intro h; rcases h.1 with h1 | h1
+  · exact h0 h1
+  · omega
+
+/-- not yet valid: not-before lies after the node's reliable time -/
+theorem validity_not_yet (s : Nat) (fabric : FabricView) (noc : Cert) (icac : Option Cert)
+    (c : Cert) (hc : c ∈ pathOf noc icac fabric.root) (hd : s < c.notBefore) :
+    Rejected (.reliable s) fabric noc icac := by
+  apply validity _ fabric noc icac c hc
+  intro h
+  have := h.2 s (by simp [Time.reliableSecs])
+  omega
+
+/-- **leaf is a CA certificate** -/
+theorem leaf_is_ca_rejects (t : Time) (fabric : FabricView) (noc : Cert) (icac : Option Cert)
+    (p : Option Nat) (hd : noc.bc = some (true, p)) : Rejected t fabric noc icac := by
+  apply rejected_of_not_valid
+  intro h
+  have := h.1.2.2.2.1.2.1
+  simp [hd] at this
+
+/-- the authorities of the path (everything above the leaf) with the number of intermediates below -/
+theorem valid_authority {t : Time} {root noc : Cert} {icac : Option Cert}
+    (h : ChainValid t root noc icac) :
+    ∀ c ∈ (pathOf noc icac root).tail, ∃ k, AuthorityProfile c k := by
+  cases icac with
+  | none =>
+    simp [ChainValid, pathOf, List.zipIdx] at h ⊢
+    exact ⟨0, h.2.2.2.2.1⟩
+  | some ic =>
+    simp [ChainValid, pathOf, List.zipIdx] at h ⊢
+    exact ⟨⟨0, h.2.2.2.2.1.1⟩, ⟨1, h.2.2.2.2.1.2⟩⟩
+
+/-- **CA without keyCertSign** (intermediate or root) -/
+theorem ca_without_keycertsign (t : Time) (fabric : FabricView) (noc : Cert) (icac : Option Cert)
+    (c : Cert) (hc : c ∈ (pathOf noc icac fabric.root).tail)
+    (hd : c.keyUsage.any (fun ku => kuHas ku Consts.kuKeyCertSign) = false) :
+    Rejected t fabric noc icac := by
+  apply rejected_of_not_valid
+  intro h
+  obtain ⟨k, hk⟩ := valid_authority h.1 c hc
+  rw [hk.2.2.1] at hd; cases hd
+
+/-- **authority that is not a CA** (cA flag false or BasicConstraints absent) -/
+theorem authority_not_ca (t : Time) (fabric : FabricView) (noc : Cert) (icac : Option Cert)
+    (c : Cert) (hc : c ∈ (pathOf noc icac fabric.root).tail)
+    (hd : c.bc.map Prod.fst ≠ some true) : Rejected t fabric noc icac := by
+  apply rejected_of_not_valid
+  intro h
+  obtain ⟨k, hk⟩ := valid_authority h.1 c hc
+  exact hd hk.2.1
+
+/-- **path length**: a root limited to 0 intermediates above a chain that has one -/
+theorem path_len (t : Time) (fabric : FabricView) (noc ic : Cert)
+    (hd : fabric.root.bc = some (true, some 0)) : Rejected t fabric noc (some ic) := by
+  apply rejected_of_not_valid
+  intro h
+  have h1 := h.1.2.2.2.2.1
+  simp [pathOf, List.zipIdx] at h1
+  have := h1.2.2.2.2 0 (by simp [hd])
+  omega
+
+/-- **unknown critical extension** anywhere on the path -/
+theorem critical_ext (t : Time) (fabric : FabricView) (noc : Cert) (icac : Option Cert)
+    (c : Cert) (hc : c ∈ pathOf noc icac fabric.root) (hd : c.critFuture = true) :
+    Rejected t fabric noc icac := by
+  apply rejected_of_not_valid
+  intro h
+  have := h.1.2.2.1 c hc
+  rw [hd] at this; cases this
+
+/-- **missing node id** -/
+theorem missing_node_id (t : Time) (fabric : FabricView) (noc : Cert) (icac : Option Cert)
+    (hd : nodeIdOf noc.subject = none) : Rejected t fabric noc icac := by
+  apply rejected_of_not_valid
+  intro h
+  have := h.1.2.2.2.2.2
+  simp [hd] at this
+
+/-- **fabric id mismatch** (other fabric's id, or none at all) -/
+theorem fabric_id_mismatch (t : Time) (fabric : FabricView) (noc : Cert) (icac : Option Cert)
+    (hd : fabricIdOf noc.subject ≠ some fabric.fabricId) : Rejected t fabric noc icac := by
+  apply rejected_of_not_valid
+  intro h; exact hd h.2.1
+
+/-- an intermediate that names another fabric -/
+theorem icac_fabric_id_mismatch (t : Time) (fabric : FabricView) (noc ic : Cert) (f : Nat)
+    (hf : fabricIdOf ic.subject = some f) (hd : f ≠ fabric.fabricId) :
+    Rejected t fabric noc (some ic) := by
+  apply rejected_of_not_valid
+  intro h; exact hd (h.2.2 ic (by simp) f (by simp [hf]))
+
+/-- **a NOC used as authority**: a certificate naming a node above the leaf -/
+theorem noc_as_authority_rejected (t : Time) (fabric : FabricView) (noc : Cert) (icac : Option Cert)
+    (c : Cert) (hc : c ∈ (pathOf noc icac fabric.root).tail) (n : Nat)
+    (hd : nodeIdOf c.subject = some n) : Rejected t fabric noc icac := by
+  apply rejected_of_not_valid
+  intro h
+  obtain ⟨k, hk⟩ := valid_authority h.1 c hc
+  exact not_authority_of_node hd k hk
+
+/-- a CA-shaped certificate (naming an authority, alone or next to a node) as the leaf -/
+theorem ca_named_leaf_rejects (t : Time) (fabric : FabricView) (noc : Cert) (icac : Option Cert)
+    (hd : CType.icac ∈ idAttrs noc.subject ∨ CType.rcac ∈ idAttrs noc.subject) :
+    Rejected t fabric noc icac := by
+  apply rejected_of_not_valid
+  intro h
+  have := h.1.2.2.2.1.1
+  rw [this] at hd; simp at hd
+
+/-- **self-signed ICAC** is refused when installing credentials -/
+theorem self_signed_icac (t : Time) (root : Cert) (k : KeyId) (fs : List FabricEntry)
+    (noc ic : Cert) (hd : ic.akid = ic.skid) : InstallRejected t root k fs noc (some ic) := by
+  apply install_rejected_of_not_valid
+  intro h; exact h.2.1 ic (by simp) hd
+
+/-- **AddNOC requires the CSR key** -/
+theorem addnoc_requires_csr_key (t : Time) (root : Cert) (k : KeyId) (fs : List FabricEntry)
+    (noc : Cert) (icac : Option Cert) (hd : noc.pubKey ≠ k) : InstallRejected t root k fs noc icac := by
+  apply install_rejected_of_not_valid
+  intro h; exact hd h.2.2.1
+
+/-- and says so: with a chain that is otherwise acceptable the answer is `InvalidPublicKey` -/
+theorem addnoc_wrong_key_error (t : Time) (root : Cert) (k : KeyId) (fs : List FabricEntry)
+    (noc : Cert) (icac : Option Cert) (hv : validateInstall t noc icac root = .ok ())
+    (hd : noc.pubKey ≠ k) : addNoc t root k fs noc icac = .error .nocInvalidPublicKey := by
+  unfold addNoc
+  have : k ≠ noc.pubKey := fun h => hd h.symm
+  simp [hv, this]
+
+/-- **AddNOC refuses an existing fabric** (same fabric id under the same root key) -/
+theorem addnoc_refuses_existing_fabric (t : Time) (root : Cert) (k : KeyId) (fs : List FabricEntry)
+    (noc : Cert) (icac : Option Cert) (fid : Nat) (hf : fabricIdOf noc.subject = some fid)
+    (hd : ({ fabricId := fid, rootPubKey := root.pubKey } : FabricEntry) ∈ fs) :
+    InstallRejected t root k fs noc icac := by
+  apply install_rejected_of_not_valid
+  intro h
+  obtain ⟨fid', h1, h2⟩ := h.2.2.2
+  rw [hf] at h1; cases h1
+  exact h2 _ hd ⟨rfl, rfl⟩
+
+/-- a fabric with the same id under another root, or another id under the same root, is no obstacle -/
+theorem addnoc_other_fabrics_ok (t : Time) (root : Cert) (k : KeyId) (fs : List FabricEntry)
+    (noc : Cert) (icac : Option Cert) (h : InstallValid t root k [] noc icac) (fid : Nat)
+    (hf : fabricIdOf noc.subject = some fid)
+    (hd : ∀ f ∈ fs, f.fabricId ≠ fid ∨ f.rootPubKey ≠ root.pubKey) :
+    InstallValid t root k fs noc icac := by
+  refine ⟨h.1, h.2.1, h.2.2.1, fid, hf, ?_⟩
+  intro f hfm hc
+  rcases hd f hfm with h1 | h1
+  · exact h1 hc.1
+  · exact h1 hc.2
+
+/-- error class of the most common attack: on an otherwise valid chain a leaf signature that
+verifies under no key is answered with `InvalidSignature` -/
+theorem flip_signature_error_class (t : Time) (fabric : FabricView) (noc : Cert) (icac : Option Cert)
+    (h : CaseValid t fabric noc icac) :
+    caseAccept t fabric { noc with sigBy := none } icac = .error .invalidSignature := by
+  have hi := valid_leaf_issued h.1
+  have hn := h.1.2.2.2.2.2
+  have hf := h.2.1
+  unfold caseAccept validateCase
+  cases hnn : nodeIdOf noc.subject with
+  | none => simp [hnn] at hn
+  | some n =>
+    obtain ⟨k, hk⟩ := Option.isSome_iff_exists.1 hi.2.2.1
+    have hak : noc.akid = some k := by rw [hi.2.2.2, hk]
+    cases icac with
+    | none =>
+      simp [leafIssuer] at hk hi
+      simp [hf, addCert, isAuthority, hk, hak, hi.2.1, bind, Except.bind]
+    | some ic =>
+      simp [leafIssuer] at hk hi
+      have h3 : icacOtherFabric ic fabric.fabricId = false :=
+        (icacOtherFabric_false_iff ic fabric.fabricId).2 (h.2.2 ic (by simp))
+      simp [hf, h3, addCert, isAuthority, hk, hak, hi.2.1, bind, Except.bind]
+
+
+/-! ## The bare verifier on chains of any length; staging a root -/
+
+/-- `PathValid` from an arbitrary starting depth -/
+def PathValidFrom (t : Time) (depth : Nat) (p : List Cert) : Prop :=
+  (∀ pr ∈ p.zip (p.tail ++ p.getLast?.toList), Issues pr.2 pr.1) ∧
+  (∀ c ∈ p, Covers t c ∧ c.critFuture = false) ∧
+  ∀ pr ∈ p.zipIdx depth, PositionOk pr.1 pr.2
+
+theorem verifyFrom_iff (t : Time) (ps : List Cert) : ∀ (cur : Cert) (depth : Nat),
+    depth + ps.length < 255 →
+    (verifyFrom t cur depth ps = .ok () ↔ PathValidFrom t depth (cur :: ps)) := by
+  induction ps with
+  | nil =>
+    intro cur depth _
+    simp [verifyFrom, finalise_ok_iff, PathValidFrom, List.zipIdx]
+    grind
+  | cons p ps ih =>
+    intro cur depth hb
+    have hm : min (depth + 1) 255 = depth + 1 := by simp at hb; omega
+    have := ih p (depth + 1) (by simp at hb ⊢; omega)
+    unfold verifyFrom
+    rw [step_ok, hm, this]
+    simp [PathValidFrom, List.zipIdx_cons, List.getLast?_cons_cons]
+    grind
+
+
+/-- **contract of the bare `CertVerifier`** on a list of any length the `u8` depth can count:
+`leaf.verify_chain_start().add_cert(c1)…add_cert(cn).finalise()` succeeds iff `PathValid`. -/
+theorem verifyChain_iff_pathValid (t : Time) (p : List Cert) (hl : p.length ≤ 255) :
+    verifyChain t p = .ok () ↔ PathValid t p := by
+  cases p with
+  | nil => simp [verifyChain, PathValid]
+  | cons c ps =>
+    unfold verifyChain
+    rw [verifyFrom_iff t ps c 0 (by simp at hl; omega)]
+    simp [PathValidFrom, PathValid, PositionOk]
+
+/-- `AddTrustedRootCertificate` stages exactly the stand-alone certificates satisfying `RootValid` -/
+theorem addTrustedRoot_iff (t : Time) (root : Cert) : addTrustedRoot t root = true ↔ RootValid t root := by
+  unfold addTrustedRoot RootValid
+  cases hf : finalise t root 0 with
+  | error e =>
+    have : ¬ (Issues root root ∧ Covers t root ∧ root.critFuture = false ∧ PositionOk root 0) := by
+      rw [← finalise_ok_iff, hf]; simp
+    simp only [Bool.false_eq_true, false_iff]
+    intro h; apply this
+    refine ⟨h.1, h.2.1, h.2.2.1, ?_⟩
+    rcases h.2.2.2.1 with h1 | h1
+    · exact Or.inr h1
+    · exact Or.inl ⟨rfl, h1⟩
+  | ok u =>
+    have h := (finalise_ok_iff t root 0).1 hf
+    have hp : AuthorityProfile root 0 ∨ LeafProfile root := by
+      rcases h.2.2.2 with h1 | h1
+      · exact Or.inr h1.2
+      · exact Or.inl h1
+    cases hbc : root.bc with
+    | none => simp [h.1, h.2.1, h.2.2.1, hp]
+    | some b =>
+      obtain ⟨ca, pl⟩ := b
+      cases pl with
+      | none => simp [h.1, h.2.1, h.2.2.1, hp]
+      | some n => simp [h.1, h.2.1, h.2.2.1, hp]
+
+
+/-! ## Non-vacuity: a concrete valid chain and its single mutations -/
+
+def exRoot : Cert :=
+  { subject := [.rootCaId 1, .fabricId 7], issuer := [.rootCaId 1, .fabricId 7], notBefore := 10,
+    notAfter := 0, bc := some (true, none), keyUsage := some 0x60, eku := none, skid := some 0,
+    akid := some 0, critFuture := false, pubKey := 0, sigBy := some 0 }
+
+def exIcac : Cert :=
+  { subject := [.icaId 2, .fabricId 7], issuer := [.rootCaId 1, .fabricId 7], notBefore := 10,
+    notAfter := 1000, bc := some (true, some 0), keyUsage := some 0x60, eku := none, skid := some 1,
+    akid := some 0, critFuture := false, pubKey := 1, sigBy := some 0 }
+
+def exNoc : Cert :=
+  { subject := [.nodeId 5, .fabricId 7, .cat 65537], issuer := [.icaId 2, .fabricId 7],
+    notBefore := 10, notAfter := 1000, bc := some (false, none), keyUsage := some 1,
+    eku := some [1, 2], skid := some 9, akid := some 1, critFuture := false, pubKey := 9,
+    sigBy := some 1 }
+
+/-- the same leaf issued directly by the root -/
+def exNocDirect : Cert :=
+  { exNoc with issuer := [.rootCaId 1, .fabricId 7], akid := some 0, sigBy := some 0 }
+
+def exFabric : FabricView := { fabricId := 7, root := exRoot }
+def exT : Time := .reliable 100
+
+example : CaseValid exT exFabric exNoc (some exIcac) := by decide
+example : CaseValid (.lastKnown 1000) exFabric exNocDirect none := by decide
+example : caseAccept exT exFabric exNoc (some exIcac) = .ok 5 := by rfl
+example : InstallValid exT exRoot 9 [⟨7, 3⟩, ⟨8, 0⟩] exNoc (some exIcac) := by decide
+example : addNoc exT exRoot 9 [⟨7, 3⟩, ⟨8, 0⟩] exNoc (some exIcac) = .ok (7, 5) := by rfl
+example : UpdateValid exT exFabric 9 exNocDirect none := by decide
+
+-- one mutation each; the stated error class is what the model (and, by the correspondence
+-- check, the implementation) answers
+example : caseAccept exT exFabric { exNoc with sigBy := none } (some exIcac) = .error .invalidSignature := by rfl
+example : caseAccept exT exFabric exNoc (some { exIcac with sigBy := none }) = .error .invalidSignature := by rfl
+example : caseAccept exT { exFabric with root := { exRoot with sigBy := none } } exNoc (some exIcac)
+    = .error .invalidSignature := by rfl
+example : caseAccept exT exFabric { exNoc with issuer := [.icaId 3, .fabricId 7] } (some exIcac)
+    = .error .invalidAuthKey := by rfl
+example : caseAccept exT exFabric { exNoc with akid := some 4 } (some exIcac) = .error .invalidAuthKey := by rfl
+example : caseAccept (.reliable 1001) exFabric exNoc (some exIcac) = .error .invalidTime := by rfl
+example : caseAccept (.lastKnown 1001) exFabric exNoc (some exIcac) = .error .invalidTime := by rfl
+example : caseAccept (.reliable 9) exFabric exNoc (some exIcac) = .error .invalidTime := by rfl
+example : caseAccept (.lastKnown 9) exFabric exNoc (some exIcac) = .ok 5 := by rfl
+example : caseAccept exT exFabric { exNoc with bc := some (true, none) } (some exIcac) = .error .invalidData := by rfl
+example : caseAccept exT exFabric exNoc (some { exIcac with keyUsage := some 0x40 }) = .error .invalidData := by rfl
+example : caseAccept exT { exFabric with root := { exRoot with bc := some (true, some 0) } } exNoc (some exIcac)
+    = .error .invalidData := by rfl
+example : caseAccept exT { exFabric with root := { exRoot with bc := some (true, some 1) } } exNoc (some exIcac)
+    = .ok 5 := by rfl
+example : caseAccept exT exFabric { exNoc with critFuture := true } (some exIcac) = .error .invalidData := by rfl
+example : caseAccept exT exFabric { exNoc with subject := [.fabricId 7] } (some exIcac) = .error .noNodeId := by rfl
+example : caseAccept exT exFabric { exNoc with subject := [.nodeId 5, .fabricId 8] } (some exIcac)
+    = .error .invalid := by rfl
+example : caseAccept exT exFabric { exNoc with subject := [.nodeId 5] } (some exIcac) = .error .noFabricId := by rfl
+def exCaLeaf : Cert :=
+  { exNoc with subject := [.icaId 6, .nodeId 5, .fabricId 7], bc := some (true, none), keyUsage := some 0x21 }
+example : caseAccept exT exFabric exCaLeaf (some exIcac) = .error .invalidData := by rfl
+-- a NOC as authority
+def exNocAuthority : Cert :=
+  { exIcac with subject := [.nodeId 8, .fabricId 7], bc := some (false, none), keyUsage := some 1, eku := some [1, 2] }
+example : caseAccept exT exFabric { exNoc with issuer := [.nodeId 8, .fabricId 7] } (some exNocAuthority)
+    = .error .invalidData := by rfl
+-- installing
+example : addNoc exT exRoot 9 [] exNocDirect (some exRoot) = .error .nocInvalidNoc := by rfl
+example : addNoc exT exRoot 4 [] exNoc (some exIcac) = .error .nocInvalidPublicKey := by rfl
+example : addNoc exT exRoot 9 [⟨7, 0⟩] exNoc (some exIcac) = .error .nocFabricConflict := by rfl
+-- hypotheses of the lemmas are satisfiable on the mutated chains
+example : ({ exNoc with sigBy := none } : Cert) ∈ pathOf { exNoc with sigBy := none } (some exIcac) exFabric.root := by decide
+example : exIcac ∈ (pathOf exNoc (some exIcac) exFabric.root).tail := by decide
+example : ({ fabricId := 7, rootPubKey := exRoot.pubKey } : FabricEntry) ∈ [⟨7, 0⟩] := by decide
+example : exRoot.akid = exRoot.skid := by decide
+
+-- chains of other lengths through the bare verifier
+example : verifyChain exT [exNoc, exIcac, exRoot] = .ok () := by rfl
+example : verifyChain exT [exRoot] = .ok () := by rfl
+example : PathValid exT [exNoc, exIcac, exRoot] := by decide
+example : addTrustedRoot exT exRoot = true := by rfl
+example : addTrustedRoot exT { exRoot with bc := some (true, some 2) } = false := by rfl
+
+end C19
